@@ -118,6 +118,9 @@ func c17(c *Ctx) {
 		"centre yields an error, a known one stores the address and reconnects before the request is re-issued."
 	r.NotDecided = []string{"delivery of the error to the right caller beyond the registration order (C09)", "that the reconnect after PHONE_MIGRATE succeeds (network)"}
 	c.errorsKept("R17.X", "the request path (MakeRequest, makeRequest, sendPacket, tryToProcessErr, Reconnect)", 4, rootMethods("MakeRequest", "MakeRequestWithHintToDecoder", "makeRequest", "sendPacket", "tryToProcessErr", "Reconnect", "Disconnect"))
+	r.Rule("R17.W", "an rpc_error that travels gzip_packed inside rpc_result reaches makeRequest as *RpcError (= R09.W filed under C17): the rpc_result arm takes the *GzipPacked wrapper off before the delivery, otherwise the caller gets (wrapper, nil) and PHONE_MIGRATE is never followed", 1)
+	c.packedResultUnwrapped("R17.W")
+
 	r.Rule("R17.T", "prefix/suffix table ⊆ catalogue, one verb per parametrised text, kinds ⊆ {Int,String}, unambiguous, PHONE_MIGRATE_ is Int", 16)
 	r.Rule("R17.P", "every panic-capable operation reachable from RpcErrorToNative / tryToProcessErr / the error arm of makeRequest is discharged, accepted under a checked table condition, or a finding", 3)
 	r.Rule("R17.F", "field provenance of ErrResponseCode: Code ← ErrorCode, Message ← normalised name, AdditionalInfo ← parsed parameter; RpcErrorToNative returns *ErrResponseCode on every path", 4)
